@@ -232,7 +232,9 @@ func C03CsvOld() {
 	}
 	r, err := NewReader("t", &zzChunkReader{data: t.input, failAt: -1}, decl, "")
 	zz.Assume(err == nil)
-	for i := 0; i < NR+4; i++ {
+	// at most one record or one continuable (per-row syntax) error per physical line, plus one
+	// for positioning: a terminal result must come within 2*NR+4 Reads
+	for i := 0; i < 2*NR+4; i++ {
 		n, err := r.Read()
 		if err == nil {
 			r.Release(n)
@@ -243,7 +245,7 @@ func C03CsvOld() {
 			return
 		}
 	}
-	zz.Cover("no-terminal-yet")
+	zz.Fail("the read loop does not end: no EOF and no fatal error within 2*NR+4 Reads of an input of at most NR lines")
 }
 
 // C06CsvOldTall: header_row_index / data_row_index count physical lines, and a record can span
